@@ -46,7 +46,7 @@ type loopRun struct {
 	headSt   *state // state at loop head after havoc+assume (for decreases)
 	measure0 *T
 	modRefs  []modTarget // heap regions the loop may modify
-	allocMark int64
+	allocMark *T // lowest reference allocated before the loop was entered
 	preSt    *state // state before havoc (for old-style references)
 }
 
@@ -100,10 +100,19 @@ func (fr *frame) clone() *frame {
 // lookupLocal finds the cell of the local variable `name` visible at pos,
 // using the type checker's scopes; hidden variables (rangeindex) by loop.
 func (fr *frame) lookupLocal(name string, pos token.Pos) *Cell {
-	if name == "rangeindex" {
-		// the hidden index of the range loop whose header is the current loop
-		if fr.curLoop != nil {
-			for _, in := range fr.curLoop.header.Instrs {
+	if strings.HasPrefix(name, "rangeindex") {
+		// the hidden index of the range loop whose header is the current loop, or (rangeindexN) of loop N
+		target := fr.curLoop
+		if name != "rangeindex" {
+			target = nil
+			for _, li := range fr.loops {
+				if fmt.Sprint(li.ordinal) == strings.TrimPrefix(name, "rangeindex") {
+					target = li
+				}
+			}
+		}
+		if target != nil {
+			for _, in := range target.header.Instrs {
 				if st, ok := in.(*ssa.Store); ok {
 					if a, ok := st.Addr.(*ssa.Alloc); ok && a.Comment == "rangeindex" {
 						return fr.cells[a]
@@ -142,6 +151,28 @@ func (fr *frame) lookupLocal(name string, pos token.Pos) *Cell {
 		}
 	}
 	return best
+}
+
+// lookupHeapLocal finds a local variable that lives in the object heap (its address escapes)
+func (fr *frame) lookupHeapLocal(name string, pos token.Pos) *Ptr {
+	if fr.fn.Pkg == nil || !pos.IsValid() {
+		return nil
+	}
+	sc := fr.fn.Pkg.Pkg.Scope().Innermost(pos)
+	if sc == nil {
+		return nil
+	}
+	_, obj := sc.LookupParent(name, pos)
+	v, ok := obj.(*types.Var)
+	if !ok {
+		return nil
+	}
+	for val, pv := range fr.env {
+		if a, ok := val.(*ssa.Alloc); ok && a.Comment == name && a.Pos() == v.Pos() && pv.ptr != nil && pv.ptr.kind == pkHeap {
+			return pv.ptr
+		}
+	}
+	return nil
 }
 
 type machine struct {
@@ -496,6 +527,11 @@ func (x *executor) verify(key string) (err error) {
 		x.note("calls through interface " + ifc + " are devirtualised to " + conc + " (justified by a requires clause on the dynamic type)")
 	}
 	// unused loop contracts are anchoring errors
+	for _, at := range x.fc.ats {
+		if !at.used {
+			return fmt.Errorf("contract-anchor: %s: no statement %q for %s clause", key, at.stmt, at.kind)
+		}
+	}
 	for _, lc := range x.fc.loops {
 		if !lc.used {
 			return fmt.Errorf("contract-anchor: %s: loop %s has no matching loop in the source", key, lc.key)
@@ -583,6 +619,9 @@ func (x *executor) runMachine(m *machine) {
 		in := fr.block.Instrs[fr.idx]
 		fr.idx++
 		x.curState = m.st
+		if fr.fc != nil && len(fr.fc.ats) > 0 {
+			x.runAts(m, fr, in)
+		}
 		x.step(m, fr, in)
 	}
 }
@@ -640,7 +679,7 @@ func (x *executor) enterLoopHeader(m *machine, fr *frame, li *loopInfo) bool {
 		return false
 	}
 	// entry edge
-	lr := &loopRun{li: li, lc: lc, allocMark: m.st.nextRef, preSt: m.st.clone()}
+	lr := &loopRun{li: li, lc: lc, allocMark: m.st.lowRef(), preSt: m.st.clone()}
 	ev := x.loopEval(x.contractEval(m, fr, pos, ""), lr)
 	for i, cl := range lc.invariants {
 		ev.where = cl.line
@@ -681,6 +720,11 @@ func (x *executor) enterLoopHeader(m *machine, fr *frame, li *loopInfo) bool {
 	for _, mt := range lr.modRefs {
 		x.havocTarget(m.st, mt)
 	}
+	// the allocator state at the start of an arbitrary iteration: earlier iterations may have allocated
+	// references in [base, mark); this iteration allocates base-1, base-2, ...
+	base := c.d.fresh("allocbase", "Int")
+	m.st.assume(app("<=", "Bool", base, lr.allocMark))
+	m.st.low = base
 	ev = x.contractEval(m, fr, pos, "")
 	ev = x.loopEval(ev, lr)
 	for _, cl := range lc.invariants {
@@ -947,4 +991,34 @@ func (x *executor) verifyLemma(lm *lemmaDecl) (o *obligation, err error) {
 		o.status = "trivial"
 	}
 	return o, nil
+}
+
+// runAts evaluates `assert`/`assume` clauses anchored before the instruction whose source text matches.
+// An assert is an obligation and is assumed afterwards (a cut: later obligations may use it).
+func (x *executor) runAts(m *machine, fr *frame, in ssa.Instruction) {
+	if _, ok := in.(*ssa.DebugRef); ok {
+		return
+	}
+	var txt string
+	switch in.(type) {
+	case *ssa.Call, *ssa.Return, *ssa.If:
+		txt = x.sourceOf(fr.fn, in)
+	default:
+		return
+	}
+	for _, at := range fr.fc.ats {
+		if at.stmt != txt {
+			continue
+		}
+		at.used = true
+		ev := x.contractEval(m, fr, in.Pos(), at.cl.line)
+		g := ev.evalBool(at.cl.e)
+		name := clauseName(at.cl, 0)
+		if at.kind == "assert" {
+			x.oblige(m, "assert", name+"@"+txt, g, at.cl.tags, at.cl.text)
+		} else {
+			x.note("assumed without proof: " + at.cl.text)
+		}
+		m.st.assume(g)
+	}
 }
